@@ -116,6 +116,7 @@ type Obs struct {
 
 // Inst is a labelmap instance under test.
 type Inst struct {
+	BlocksDownres bool // IngestBlocks asks for the lower-resolution levels to be computed
 	N    *node.Node
 	G    *Geom
 	Name string
@@ -868,7 +869,12 @@ func (in *Inst) IngestBlocks(uuid string, sv []uint64, blocks []int) error {
 		binary.Write(&buf, binary.LittleEndian, int32(zbuf.Len()))
 		buf.Write(zbuf.Bytes())
 	}
-	r, err := in.http("POST", "/api/node/"+uuid+"/"+in.Name+"/blocks", buf.Bytes())
+	// (POST blocks leaves the lower-resolution levels alone unless asked: "downres false (default)")
+	q := ""
+	if in.BlocksDownres {
+		q = "?downres=true"
+	}
+	r, err := in.http("POST", "/api/node/"+uuid+"/"+in.Name+"/blocks"+q, buf.Bytes())
 	if err != nil {
 		return err
 	}
